@@ -119,7 +119,7 @@ PROPS["C11"] = {
 PROPS["C12"] = {
     "level": "model_checking",
     "technique": "bounded exhaustive enumeration of constructed candidate sets (members, identity, off-curve, curve/twist points outside the order-r subgroup, cofactor parts, small-order points, member + non-member; target-field elements outside the cyclotomic subgroup, cyclotomic elements of order not dividing r) through the real membership predicates, and of scalar alphabets through every g1_/g2_/gt_ multiplication form, against the definition evaluated by reference group laws and a reference quotient-ring tower on GMP",
-    "level_text": "Per parameter set (BN_P256 with D-type twist, SM9_P256 with M-type twist; B12_P381 in the 381-bit build, where G1 has a cofactor): the expected verdict of g1_is_valid / g2_is_valid / gt_is_valid is the definition itself -- on the curve, not the identity, annihilated by r -- computed by plain reference multiplication / exponentiation (no endomorphism shortcut). Candidates are built by the reference: multiples of the generators, off-curve neighbours, points lifted from small x (outside the subgroup when a cofactor exists), their [r]- and [h]-multiples, sums member + cofactor part, points of every prime order < 2^20 dividing the cofactor, points of another twist; GT: powers of the generator, 0, 1, -1, -g, sparse and dense field elements, their images under the easy part of the final exponentiation (cyclotomic, order not dividing r), those times a member, and their images under the hard part (members unrelated to the generator). Exponentiation: g1/g2 mul, mul_sec, mul_any, mul_dig, mul_gen, mul_fix, mul_sim, mul_sim_lot, mul_sim_gen and gt_exp, gt_exp_sec, gt_exp_dig, gt_exp_gen, gt_exp_sim for scalars 0, +-1, r-1, r, r+1, 2r, 2^k boundaries, longer than r, negative, curve-parameter multiples. Other families (thorough, C04_fam.c, bounds c11-): on the curves over F_p^3, F_p^4, F_p^8 of the KSS18, KSS16/B24, B48 builds the pairing with a fixed G1 generator is an exact oracle (G2 cyclic of prime order, pairing non-degenerate: X = [k]G2 iff e(G1, X) = E0^k in the reference tower): EVERY multiplication routine (26 forms incl. regular, ladder, every table method, simultaneous forms) x 18 scalars; the group law in every coordinate system and operand representation over all 12 x 12 index pairs (equal, opposite, identity operands); twist points found by solving the curve equation: rejected by g2_is_valid, mapped into the order-r subgroup by cofactor clearing. Other families (thorough, C04_fam.c, bounds c12-): validity predicates on members, identities and non-members, every G1 multiplication form and every GT exponentiation form (gt_exp, _sec, _dig, _gen, _sim, inverse, square/multiply, Frobenius) against the reference tower of degree 16, 18, 24, 48.",
+    "level_text": "Per parameter set (BN_P256 with D-type twist, SM9_P256 with M-type twist; B12_P381 in the 381-bit build, where G1 has a cofactor): the expected verdict of g1_is_valid / g2_is_valid / gt_is_valid is the definition itself -- on the curve, not the identity, annihilated by r -- computed by plain reference multiplication / exponentiation (no endomorphism shortcut). Candidates are built by the reference: multiples of the generators, off-curve neighbours, points lifted from small x (outside the subgroup when a cofactor exists), their [r]- and [h]-multiples, sums member + cofactor part, points of every prime order < 2^20 dividing the cofactor, points of another twist; GT: powers of the generator, 0, 1, -1, -g, sparse and dense field elements, their images under the easy part of the final exponentiation (cyclotomic, order not dividing r), those times a member, and their images under the hard part (members unrelated to the generator). Exponentiation: g1/g2 mul, mul_sec, mul_any, mul_dig, mul_gen, mul_fix, mul_sim, mul_sim_lot, mul_sim_gen and gt_exp, gt_exp_sec, gt_exp_dig, gt_exp_gen, gt_exp_sim for scalars 0, +-1, r-1, r, r+1, 2r, 2^k boundaries, longer than r, negative, curve-parameter multiples. Other families (thorough, C04_fam.c, bounds c11-): on the curves over F_p^3, F_p^4, F_p^8 of the KSS18, KSS16/B24, B48 builds the pairing with a fixed G1 generator is an exact oracle (G2 cyclic of prime order, pairing non-degenerate: X = [k]G2 iff e(G1, X) = E0^k in the reference tower): EVERY multiplication routine (26 forms incl. regular, ladder, every table method, simultaneous forms) x 18 scalars; the group law in every coordinate system and operand representation over all 12 x 12 index pairs (equal, opposite, identity operands); twist points found by solving the curve equation: rejected by g2_is_valid, mapped into the order-r subgroup by cofactor clearing; the Frobenius endomorphism for every power 0..k+1 on affine and projective operands (e(G1, frb^i([j]G2)) = E0^(j p^i)). The B24 build (315 bits) also runs in the quick tier; the thorough tier adds one build per remaining pairing field size (158 .. 768 bits). Other families (thorough, C04_fam.c, bounds c12-): validity predicates on members, identities and non-members, every G1 multiplication form and every GT exponentiation form (gt_exp, _sec, _dig, _gen, _sim, inverse, square/multiply, Frobenius) against the reference tower of degree 16, 18, 24, 48.",
     "level_note": "Trusted: ref_ec.h / ref_ec2.h group laws, ref_ext.h tower with each level's constant read from the library and validated irreducible, twist type derived from the coefficients (b' = b/xi or b*xi). The k = 8, 16, 18, 24, 48 families need their own field-size builds and references over ep3/ep4/ep8 and are not driven. The thorough tier also runs the 446-bit builds (BN_P446; B12_P446 where its twist is defined, i.e. under FP_QNRES).",
     "rule": "cases are (parameter set, predicate or routine, candidate / base, scalar(s)); all counted non-trivial; distinct by 64-bit hash; transitions = individual verdicts / results compared with the reference.",
     "assumptions": ["reference group laws and tower", "calls inside RLC_TRY", "DRBG re-seeded identically before every randomised routine"],
